@@ -30,14 +30,26 @@ pub fn target_addr(i: usize) -> IpAddr {
     IpAddr::V4(Ipv4Addr::new(10, 9, 9, 9 + i as u8))
 }
 
+/// Hops 3 and 4 sit in the same building: all their addresses resolve to one GeoIP location
+/// (consecutive hops in one city are the rule in real databases).
+pub const fn geo_key(sel: u8, ttl: u8) -> (u8, u8) {
+    if ttl == 3 || ttl == 4 {
+        (0, 3)
+    } else {
+        (sel, ttl)
+    }
+}
+
 /// Everything that must not reach the screen for a hidden hop (6+ character markers).
 pub fn secrets(sel: u8, ttl: u8) -> Vec<String> {
+    let (own, osel) = (ttl, sel);
+    let (sel, ttl) = geo_key(sel, ttl);
     vec![
-        format!("10.{}.{}.", 70 + ttl, ttl),
-        format!("zqh{ttl}v{sel}k"),
-        format!("64{ttl}{sel}01"),
-        format!("ZQAS{ttl}V{sel}"),
-        format!("zqrg{ttl}v{sel}"),
+        format!("10.{}.{}.", 70 + own, own),
+        format!("zqh{own}v{osel}k"),
+        format!("64{own}{osel}01"),
+        format!("ZQAS{own}V{osel}"),
+        format!("zqrg{own}v{osel}"),
         format!("Zqcy{ttl}v{sel}"),
         format!("Zqrn{ttl}v{sel}"),
         format!("Zqld{ttl}v{sel}"),
@@ -49,6 +61,7 @@ pub fn secrets(sel: u8, ttl: u8) -> Vec<String> {
 }
 
 fn geo(sel: u8, ttl: u8) -> GeoRec {
+    let (sel, ttl) = geo_key(sel, ttl);
     GeoRec {
         city: format!("Zqcy{ttl}v{sel}ville"),
         region: format!("Zqrn{ttl}v{sel}shire"),
